@@ -463,6 +463,9 @@ impl Actor {
 }
 
 pub fn run(config: Config, receiver: Receiver<ActorMessage>) {
+    #[cfg(mainline_verif)]
+    crate::verif::seed_actor_thread();
+
     match Actor::new(config) {
         Ok(mut actor) => {
             loop {
